@@ -2,6 +2,7 @@ package main
 
 import (
 	"fmt"
+	"go/constant"
 	"go/token"
 	"go/types"
 	"sort"
@@ -30,19 +31,69 @@ func runC05(a *A) {
 			"(*stream.Stream).applyOrderBy":               "ORDER BY on the expanded batch (async path)",
 			"(*stream.Stream).sendResultNonBlocking":      "result channel delivery (async path)",
 		}
-		for _, fn := range []*ssa.Function{a.Method("stream", "Stream", "processDirectDataSync"), a.Method("stream", "DataProcessor", "processDirectData")} {
+		callsAll := func(f *ssa.Function, fs ...*ssa.Function) bool {
+			for _, g := range fs {
+				if len(callsTo(f, g)) == 0 {
+					return false
+				}
+			}
+			return true
+		}
+		for _, entry := range []*ssa.Function{a.Method("stream", "Stream", "processDirectDataSync"), a.Method("stream", "DataProcessor", "processDirectData")} {
+			// the row-wise stages run in the entry itself or in a same-package helper it calls (the two
+			// entries may share that helper: then they are the same pipeline by construction); likewise the
+			// delivery may sit in a helper. Order, data flow and gating are checked where the stages are.
+			fn := entry
+			var hostCall, deliverCall *ssa.Call
+			if !callsAll(entry, enrich, where, project) {
+				for _, h := range a.helpersOf(entry) {
+					if callsAll(h, enrich, where, project) {
+						fn = h
+						for _, c := range callsTo(entry, h) {
+							hostCall, _ = c.(*ssa.Call)
+						}
+					}
+				}
+			}
+			sinkHost := entry
+			if len(callsTo(entry, sinks)) == 0 {
+				for _, h := range a.helpersOf(entry) {
+					if len(callsTo(h, sinks)) > 0 && h != fn {
+						sinkHost = h
+						for _, c := range callsTo(entry, h) {
+							deliverCall, _ = c.(*ssa.Call)
+						}
+					}
+				}
+			}
 			is := func(f *ssa.Function) func(ssa.Instruction) bool {
 				return func(in ssa.Instruction) bool { return staticCallee(in) == f }
 			}
 			chain := []struct {
 				name string
 				f    *ssa.Function
-			}{{"enrichData", enrich}, {"applyWhereAndAnalytic", where}, {"projectDirectRow", project}, {"callSinksAsync", sinks}}
+			}{{"enrichData", enrich}, {"applyWhereAndAnalytic", where}, {"projectDirectRow", project}}
 			for i := 1; i < len(chain); i++ {
-				n := a.ruleDominatedBy(fn, fmt.Sprintf("%s#%s-after-%s", fname(fn), chain[i].name, chain[i-1].name), is(chain[i-1].f), is(chain[i].f),
+				n := a.ruleDominatedBy(fn, fmt.Sprintf("%s#%s-after-%s", fname(entry), chain[i].name, chain[i-1].name), is(chain[i-1].f), is(chain[i].f),
 					chain[i].name+" runs only after "+chain[i-1].name, chain[i].name+" can run without "+chain[i-1].name+" having run: the two API paths would not be the same pipeline")
 				if n == 0 {
-					a.Bad(fmt.Sprintf("%s#%s-after-%s", fname(fn), chain[i].name, chain[i-1].name), fn.Pos(), "%s does not call %s", fname(fn), chain[i].name)
+					a.Bad(fmt.Sprintf("%s#%s-after-%s", fname(entry), chain[i].name, chain[i-1].name), fn.Pos(), "%s does not call %s", fname(entry), chain[i].name)
+				}
+			}
+			// delivery after projection: in the entry, the sinks (or the delivery helper) run only after the
+			// projection (or the stage helper) has run
+			{
+				early, late := is(project), is(sinks)
+				if hostCall != nil {
+					early = func(in ssa.Instruction) bool { return in == ssa.Instruction(hostCall) }
+				}
+				if deliverCall != nil {
+					late = func(in ssa.Instruction) bool { return in == ssa.Instruction(deliverCall) }
+				}
+				n := a.ruleDominatedBy(entry, fmt.Sprintf("%s#callSinksAsync-after-projectDirectRow", fname(entry)), early, late,
+					"callSinksAsync runs only after projectDirectRow", "callSinksAsync can run without projectDirectRow having run: the two API paths would not be the same pipeline")
+				if n == 0 || len(callsTo(sinkHost, sinks)) == 0 {
+					a.Bad(fmt.Sprintf("%s#callSinksAsync-after-projectDirectRow", fname(entry)), entry.Pos(), "%s does not call callSinksAsync", fname(entry))
 				}
 			}
 			// data flow between stages
@@ -87,38 +138,103 @@ func runC05(a *A) {
 						flag = ex
 					}
 				}
-				for _, c := range callsTo(fn, st.next) {
+				gated := callsTo(fn, st.next)
+				gateFn := fn
+				if st.next == sinks && (hostCall != nil || deliverCall != nil) {
+					// the emit gate sits in the entry: the delivery (call of sinks or of the delivery helper)
+					// is guarded by a boolean result of the stage helper, which is true only after the
+					// projection said emit (every return of the helper with that result true is dominated by
+					// the true edge of projectDirectRow's emit)
+					gateFn = entry
+					gated = nil
+					if deliverCall != nil {
+						gated = append(gated, deliverCall)
+					} else {
+						gated = callsTo(entry, sinks)
+					}
+					if hostCall != nil {
+						flag = nil
+						for _, r := range *hostCall.Referrers() {
+							ex, ok := r.(*ssa.Extract)
+							if !ok || !isBool(ex.Type()) {
+								continue
+							}
+							// result #ex.Index of the helper is true only under emit
+							onlyUnderEmit := true
+							for _, hb := range fn.Blocks {
+								ret, ok := hb.Instrs[len(hb.Instrs)-1].(*ssa.Return)
+								if !ok || ex.Index >= len(ret.Results) {
+									continue
+								}
+								for _, l := range phiLeaves(ret.Results[ex.Index]) {
+									if k, ok := l.(*ssa.Const); ok && k.Value != nil && !constant.BoolVal(k.Value) {
+										continue
+									}
+									pf := ssa.Value(nil)
+									for _, r2 := range *projCall.Referrers() {
+										if e2, ok := r2.(*ssa.Extract); ok && e2.Index == 1 {
+											pf = e2
+										}
+									}
+									if l == pf {
+										continue
+									}
+									if pf == nil || !guardedByValue(hb, func(v ssa.Value) bool { return v == pf }, true) {
+										onlyUnderEmit = false
+									}
+								}
+							}
+							if onlyUnderEmit {
+								flag = ex
+							}
+						}
+					}
+				}
+				for _, c := range gated {
 					ok := flag != nil && guardedByValue(c.Block(), func(v ssa.Value) bool { return v == flag }, true)
+					_ = gateFn
 					a.Check(ok, fmt.Sprintf("%s#%s-gates-%s", fname(fn), st.nm, st.next.Name()), c.Pos(),
 						st.next.Name()+" is reached only when "+st.nm+" is true", st.next.Name()+" can be reached although "+st.nm+" is false: a rejected row would still produce output")
 				}
 			}
 			// other module calls on the way
-			allInstrs(fn, func(in ssa.Instruction) {
-				cal := staticCallee(in)
-				if cal == nil || !a.fnInModule(cal) {
-					return
-				}
-				switch cal {
-				case enrich, where, project, sinks:
-					return
-				}
-				if cal.Pkg != nil && (cal.Pkg.Pkg.Path() == modPath+"/logger" || cal.Name() == "Inc") {
-					return
-				}
-				if c := callCommon(in); c.IsInvoke() {
-					return
-				}
-				why, ok := allowedExtra[fname(cal)]
-				if fn.Name() == "processDirectDataSync" {
-					ok = false
-				}
-				if ok {
-					a.Ok(fname(fn)+"#extra:"+cal.Name(), in.Pos(), "%s", why)
-				} else {
-					a.Bad(fname(fn)+"#extra:"+cal.Name(), in.Pos(), "%s calls %s, which is not a stage of the shared pipeline: the two API paths could differ", fname(fn), fname(cal))
-				}
-			})
+			extraScan := []*ssa.Function{entry}
+			if fn != entry {
+				extraScan = append(extraScan, fn)
+			}
+			if sinkHost != entry {
+				extraScan = append(extraScan, sinkHost)
+			}
+			for _, scanned := range extraScan {
+				allInstrs(scanned, func(in ssa.Instruction) {
+					cal := staticCallee(in)
+					if cal == nil || !a.fnInModule(cal) {
+						return
+					}
+					switch cal {
+					case enrich, where, project, sinks:
+						return
+					}
+					if cal == fn || cal == sinkHost {
+						return // the helper that carries the stages / the delivery (checked above)
+					}
+					if cal.Pkg != nil && (cal.Pkg.Pkg.Path() == modPath+"/logger" || cal.Name() == "Inc") {
+						return
+					}
+					if c := callCommon(in); c.IsInvoke() {
+						return
+					}
+					why, ok := allowedExtra[fname(cal)]
+					if entry.Name() == "processDirectDataSync" {
+						ok = false
+					}
+					if ok {
+						a.Ok(fname(entry)+"#extra:"+cal.Name(), in.Pos(), "%s", why)
+					} else {
+						a.Bad(fname(entry)+"#extra:"+cal.Name(), in.Pos(), "%s calls %s, which is not a stage of the shared pipeline: the two API paths could differ", fname(entry), fname(cal))
+					}
+				})
+			}
 		}
 	})
 	a.Rule("ordtab/where-rejects", 1, func() {
